@@ -2,7 +2,7 @@
 #include "c11_csr_ops.h"
 namespace c11 {
 void registerCsrB() {
-#ifdef C11_FULL
+#if 0 // full matrix: see c11_x_*.cpp
   regCsrOptions<uint64_t>(O_ALL, O_ALL);
   regCsrOptions<float>(O_ALL, O_ALL);
 #else
